@@ -5,24 +5,36 @@
 import Masscanned.Proofs.C19.Defs
 import Masscanned.Proofs.C14.Reparse
 namespace Masscanned.C19
-open Masscanned Masscanned.C14
+open Masscanned Masscanned.C14 Masscanned.DnsFix
 
-theorem nameEnd_body' (body : Bytes) (hb : ∀ b ∈ body, b ≠ 0) (rest : Bytes) :
-    nameEnd (body ++ 0 :: rest) = some (body ++ [0], rest) := by
-  induction body with
-  | nil => simp [nameEnd]
+/-- the mask delimits names exactly as the model's label-wise reader does -/
+theorem nameEndL_eq : ∀ (p : Bytes) (left : Nat), nameEndL left p = rawSplit left p := by
+  intro p
+  induction p with
+  | nil => intro left; simp [nameEndL, rawSplit]
   | cons b t ih =>
-    have hb0 : b ≠ 0 := hb b (by simp)
-    simp only [List.cons_append, nameEnd, if_neg hb0]
-    rw [ih (fun x hx => hb x (by simp [hx]))]
+    intro left
+    unfold nameEndL rawSplit
+    split
+    · rw [ih]
+      cases rawSplit (left - 1) t with
+      | none => rfl
+      | some x => rfl
+    · split
+      · rfl
+      · rw [ih]
+        cases rawSplit b.toNat t with
+        | none => rfl
+        | some x => rfl
 
-theorem nameEnd_body (body : Bytes) (hb : ∀ b ∈ body, b ≠ 0) (rest : Bytes) :
-    nameEnd (body ++ ([0] ++ rest)) = some (body ++ [0], rest) := nameEnd_body' body hb rest
+theorem nameEnd_raw (n : Bytes) (hn : IsRaw n) (rest : Bytes) : nameEnd (n ++ rest) = some (n, rest) := by
+  unfold nameEnd
+  rw [nameEndL_eq, rawSplit_raw hn]
 
 /-- the part of a reply that survives the blanking of one answer -/
 def answerKept (q : DnsQ) : Bytes := q.name ++ [0, 1, 0, 1, 0, 0, 168, 192]
 
-theorem keepQs_echo : ∀ (qs : List DnsQ), (∀ q ∈ qs, ∃ body, q.name = body ++ [0] ∧ ∀ b ∈ body, b ≠ 0) →
+theorem keepQs_echo : ∀ (qs : List DnsQ), (∀ q ∈ qs, IsRaw q.name) →
     ∀ rest, keepQs qs.length ((qs.map (fun q => q.name ++ [0, 1, 0, 1])).flatten ++ rest) =
       some ((qs.map (fun q => q.name ++ [0, 1, 0, 1])).flatten, rest) := by
   intro qs
@@ -30,11 +42,9 @@ theorem keepQs_echo : ∀ (qs : List DnsQ), (∀ q ∈ qs, ∃ body, q.name = bo
   | nil => intro _ rest; rfl
   | cons q t ih =>
     intro h rest
-    obtain ⟨body, hn, hb⟩ := h q (by simp)
+    have hn := h q (by simp)
     simp only [List.length_cons, List.map_cons, List.flatten_cons, List.append_assoc, keepQs]
-    rw [hn]
-    simp only [List.append_assoc]
-    rw [nameEnd_body body hb]
+    rw [nameEnd_raw q.name hn]
     simp only
     rw [if_neg (by simp)]
     have : List.drop 4 ([0, 1, 0, 1] ++ ((t.map (fun q => q.name ++ [0, 1, 0, 1])).flatten ++ rest)) =
@@ -43,7 +53,7 @@ theorem keepQs_echo : ∀ (qs : List DnsQ), (∀ q ∈ qs, ∃ body, q.name = bo
     simp
 
 theorem keepRRs_answers (ci : ClientInfo) (hrd : (rdataOf ci).length < 65536) : ∀ (qs : List DnsQ),
-    (∀ q ∈ qs, ∃ body, q.name = body ++ [0] ∧ ∀ b ∈ body, b ≠ 0) →
+    (∀ q ∈ qs, IsRaw q.name) →
     ∀ rest, keepRRs qs.length ((qs.map (dnsAnswer ci.ipDst)).flatten ++ rest) =
       some ((qs.map answerKept).flatten ++ rest) := by
   intro qs
@@ -51,11 +61,11 @@ theorem keepRRs_answers (ci : ClientInfo) (hrd : (rdataOf ci).length < 65536) : 
   | nil => intro _ rest; rfl
   | cons q t ih =>
     intro h rest
-    obtain ⟨body, hn, hb⟩ := h q (by simp)
+    have hn := h q (by simp)
     simp only [List.length_cons, List.map_cons, List.flatten_cons, List.append_assoc, keepRRs]
-    rw [dnsAnswer_eq, hn]
+    rw [dnsAnswer_eq]
     simp only [List.append_assoc]
-    rw [nameEnd_body body hb]
+    rw [nameEnd_raw q.name hn]
     have h32 : u32be 43200 = [0, 0, 168, 192] := by decide
     generalize hT : (t.map (dnsAnswer ci.ipDst)).flatten ++ rest = T at ih ⊢
     have he : [0, 1, 0, 1] ++ (u32be 43200 ++ (u16be (rdataOf ci).length ++ (rdataOf ci ++ T))) =
@@ -74,7 +84,7 @@ theorem keepRRs_answers (ci : ClientInfo) (hrd : (rdataOf ci).length < 65536) : 
           ([0, 1, 0, 1, 0, 0, 168, 192] ++ u16be (rdataOf ci).length ++ rdataOf ci) ++ T := by simp
       rw [e, List.drop_left' (by simp [u16be]; omega)]
     rw [hdrop, ← hT, ih (fun x hx => h x (by simp [hx]))]
-    simp [answerKept, u16be, hn]
+    simp [answerKept, u16be]
 
 theorem masked_dns (r : Bytes) : masked .dns r =
     if r.length < 12 then none
